@@ -18,6 +18,7 @@ def run(ctx):
     ctx.rule("C05.4", "every call of Cache::insert is guarded by ttl > 0 of the record being inserted; callers = SharedCache::{insert, insert_all}")
     ctx.rule("C05.5", "upsert removes an equal stored value before pushing the new tuple")
     ctx.rule("C05.6", "the unchecked getters have no production caller besides their wrappers")
+    ctx.rule("C05.7", "a lookup hands out everything the cache holds for the name and type: in the ANY arm every record list of the name's partition is converted (an iteration over all of them), in the typed arm the list of that type; the lists come from the partition of the name asked")
     ctx.decline("behaviour along histories with elapsed time (needs a clock)")
 
     # ------------------------------------------------------------------ C05.1
@@ -115,6 +116,28 @@ def run(ctx):
         ctx.check(ok, "C05.3", "Cache::insert:args", "upsert(name, rtype(), data, from_secs(ttl)) of the same record",
                   "upsert arguments are (%s)" % ", ".join(A.show(x) for x in a[1:]), ci.loc(b))
 
+    # ------------------------------------------------------------------ C05.7
+    gu = prog.fn(CACHE_GET_UNCHECKED)
+    gur = A.Resolver(gu)
+    guc = A.Conds(gu, gur)
+    seen7 = {}
+    for b, t in gu.calls():
+        if not (t.get("callee") or "").endswith("cache::to_rrs"):
+            continue
+        e = gur.call_expr(t, b)
+        arms = [fc[1] for fc in guc.facts_on_all_paths(b) if fc[0] == "is" and fc[1] in ("Wildcard", "Record") and A.peel(fc[2]) == ("param", 3)]
+        tuples = e[2][2]
+        src = next((A.iter_elem_source(x) for x in A.walk(tuples) if A.iter_elem_source(x) is not None), None)
+        all_lists = src is not None and any(x[0] == "call" and (x[1].endswith("::values") or "hash_map::Values" in x[1]) for x in A.walk(tuples)) and \
+            any(x[0] == "call" and x[1].endswith("get_partition_without_checking_expiration") and A.peel(x[2][1]) == ("param", 2) for x in A.walk(tuples))
+        one_list = any(x[0] == "call" and x[1].endswith("K1, K2, V>::get_without_checking_expiration") and A.peel(x[2][1]) == ("param", 2)
+                       and A.path_str(x[2][2]) == "param3.<Record>.0" for x in A.walk(tuples))
+        kind = "all" if all_lists else ("one" if one_list else "?" + A.show(tuples)[:60])
+        for a_ in arms or ["?"]:
+            seen7.setdefault(a_, []).append(kind)
+    ctx.check(seen7 == {"Wildcard": ["all"], "Record": ["one"]}, "C05.7", "lookup:arms", "ANY -> every record list of the name; typed -> the list of that type",
+              "lookup arms convert %s" % seen7, gu.loc())
+
     # ------------------------------------------------------------------ C05.4
     callers = A.who_calls(prog, "dns_resolver::cache::Cache::insert")
     names = sorted({f.root_key for f, _, _ in callers})
@@ -126,7 +149,15 @@ def run(ctx):
         c = A.Conds(f, rr)
         rec = rr.call_expr(t, b)[2][1]
         rec_path = A.path_str(rec)
-        ok, edges = c.guarded(b, A.cmp_fact({"Gt", "Ne"}, lambda x: rec_path is not None and A.path_str(x) == rec_path + ".ttl", Konst(0)))
+        # the record tested is the record inserted: the same element of the same iteration (a test of *some* element of the
+        # batch - `records.iter().any(|r| r.ttl > 0)` - says nothing about this one)
+        def elem_site(x):
+            for y in A.walk(x):
+                if y[0] == "call" and y[1].endswith("::next"):
+                    return y[3]
+            return None
+        rec_site = elem_site(rec)
+        ok, edges = c.guarded(b, A.cmp_fact({"Gt", "Ne"}, lambda x: rec_path is not None and A.path_str(x) == rec_path + ".ttl" and elem_site(x) == rec_site, Konst(0)))
         ctx.check(ok, "C05.4", "%s:ttl-guard" % A.short(f.key), "insert of %s dominated by %s.ttl > 0" % (rec_path, rec_path),
                   "Cache::insert(%s) is reachable without passing `%s.ttl > 0`" % (A.show(rec), rec_path), f.loc(b))
 
